@@ -37,6 +37,12 @@ CHECKS = {
         "Trusted: binascii, bytes(generator). The byte-range of xor keys (0..999 from the regex) is a totality matter decided under C01.",
         "DESIGN.md 3/C13",
     ),
+    "C14": (
+        "regex-automaton facts (thresholds, finite-language enumeration of the decimal alternative, containment of the hex alternative, UTF-16 pair structure), tokenisation lemma for replace/split, provenance terms from abstract interpretation, handler census for chr()",
+        "Decides: the reference group is decimal 0-255 or two hex digits and runs need five references; replace+split enumerates exactly the matched references and each is converted with the right base; chr/unescape/UTF-16 values are the stdlib conversion of exactly the delimited group, over exactly the match span, with the documented labels; unencodable code points are skipped; UTF-16 matches are (Latin-1, NUL) pairs with a seven-character threshold. That int/chr/unquote/codecs compute what their documentation says is trusted.",
+        "Trusted: int, chr, unquote_to_bytes, utf-16/utf-8 codecs.",
+        "DESIGN.md 3/C14",
+    ),
     "C17": (
         "guard truth tables with integer theory (boundary test, MixedCase per-byte test), find-advance loop template, constructor-argument provenance through Node.__init__'s signature",
         "Decides the whole mechanism of keyword.find_all / find_keywords / is_mixed_case: the boundary formula equals the statement's, both search operands are lower-cased, the search starts at 0 and advances by len(keyword) on every path, empty keywords are rejected, type/value/span roles and the MixedCase formula are the documented ones.",
